@@ -90,10 +90,22 @@ def run(ctx, chk):
                 if loc_ is None and isinstance(n.value, (ast.Attribute, ast.Subscript)):
                     # x = self.<class-level container> / cls.<container>[..]: a local alias of it
                     loc_ = container_key(repo, fi, n.value, alias, first, is_cm)
+                if loc_ is None:
+                    # x = Class.getter() where the getter returns a class-level attribute as is
+                    loc_ = getter_key(repo, fi, n.value, first)
                 if loc_ is not None:
                     alias[n.targets[0].id] = loc_
         for n in ast.walk(fi.node):
             loc = f"{m.path}:{getattr(n, 'lineno', 0)}"
+            # ---- in-place augmented assignment through a local alias of a class-level object
+            # (`x = cls.A; x |= y` updates the shared array / list / set itself; for numbers and
+            # strings it only re-binds x, hence the test on what the attribute holds)
+            if isinstance(n, ast.AugAssign) and isinstance(n.target, ast.Name) \
+                    and n.target.id in alias and alias[n.target.id][0] == "class" \
+                    and mutable_valued(repo, alias[n.target.id][1], alias[n.target.id][2]):
+                writers.setdefault(alias[n.target.id], []).append(
+                    (fi.qualname, loc, f"in-place {ast.unparse(n.target)} "
+                     f"{OPS.get(type(n.op), '?')}= ... through a local alias"))
             # ---- stores
             targets = []
             if isinstance(n, ast.Assign):
@@ -230,6 +242,94 @@ def _locals(fi):
         if isinstance(n, ast.Name) and isinstance(n.ctx, ast.Store):
             out.add(n.id)
     return out
+
+
+OPS = {ast.BitOr: "|", ast.BitAnd: "&", ast.Add: "+", ast.Sub: "-", ast.Mult: "*", ast.BitXor: "^"}
+
+
+def _class_of_receiver(repo, fi, recv, first):
+    if not isinstance(recv, ast.Name):
+        return None
+    if fi.cls is not None and recv.id in (first, fi.cls.name):
+        return fi.cls
+    r = repo.resolve_name(fi.module, recv.id) if recv.id not in _locals(fi) else None
+    return r[1] if r and r[0] == "class" else None
+
+
+def getter_key(repo, fi, e, first):
+    """("class", owner, attr) when e is `C.m()` / `cls.m()` / `self.m()` and every return of m is
+    the class-level attribute `attr` itself (a getter hands out the shared object)"""
+    if not (isinstance(e, ast.Call) and isinstance(e.func, ast.Attribute) and not e.args
+            and not e.keywords):
+        return None
+    ci = _class_of_receiver(repo, fi, e.func.value, first)
+    m = ci.find_method(e.func.attr) if ci is not None else None
+    if m is None or m.flavour in ("property", "setter"):
+        return None
+    rets = [n for n in ast.walk(m.node) if isinstance(n, ast.Return)]
+    keys = set()
+    for r in rets:
+        v = r.value
+        if not (isinstance(v, ast.Attribute) and isinstance(v.value, ast.Name) and m.params
+                and v.value.id in (m.params[0], ci.name)):
+            return None
+        oc, ex = ci.find_class_attr(v.attr)
+        if ex is None or (m.flavour != "classmethod" and v.value.id == m.params[0]
+                          and instance_assigned(ci, v.attr)):
+            return None
+        keys.add(("class", oc.name, v.attr))
+    return keys.pop() if len(keys) == 1 else None
+
+
+_MUTABLE_CTORS = {"list", "dict", "set", "bytearray", "defaultdict", "deque", "OrderedDict",
+                  "Counter"}
+
+
+def _mutable_expr(repo, ci, e, depth=0):
+    if isinstance(e, (ast.List, ast.Dict, ast.Set, ast.ListComp, ast.DictComp, ast.SetComp)):
+        return True
+    if isinstance(e, ast.Call):
+        f = e.func
+        if isinstance(f, ast.Name) and f.id in _MUTABLE_CTORS:
+            return True
+        if isinstance(f, ast.Attribute) and isinstance(f.value, ast.Name):
+            if f.value.id in ("np", "numpy"):
+                return True              # every numpy constructor / ufunc returns an ndarray
+            m = ci.find_method(f.attr) if ci is not None else None
+            if m is not None and depth < 2:
+                # a method of the class that returns a local it built from a mutable expression
+                local = {}
+                for n in ast.walk(m.node):
+                    if isinstance(n, ast.Assign) and len(n.targets) == 1 \
+                            and isinstance(n.targets[0], ast.Name):
+                        local.setdefault(n.targets[0].id, []).append(n.value)
+                for r in ast.walk(m.node):
+                    if isinstance(r, ast.Return) and r.value is not None:
+                        vals = local.get(r.value.id, []) if isinstance(r.value, ast.Name) \
+                            else [r.value]
+                        if any(_mutable_expr(repo, ci, v, depth + 1) for v in vals):
+                            return True
+    return False
+
+
+def mutable_valued(repo, owner, attr):
+    """some assignment to the class-level attribute gives it a list / dict / set / ndarray"""
+    for ci in (c for mod in repo.modules.values() for c in mod.classes.values()):
+        if ci.name != owner:
+            continue
+        oc, ex = ci.find_class_attr(attr)
+        if ex is not None and _mutable_expr(repo, ci, ex):
+            return True
+        for m in ci.methods.values():
+            for n in ast.walk(m.node):
+                if isinstance(n, ast.Assign):
+                    for t in n.targets:
+                        if isinstance(t, ast.Attribute) and t.attr == attr \
+                                and isinstance(t.value, ast.Name) and m.params \
+                                and t.value.id in (m.params[0], owner) \
+                                and _mutable_expr(repo, ci, n.value):
+                            return True
+    return False
 
 
 def store_key(repo, fi, t, alias, globals_declared, first, is_cm):
